@@ -9,6 +9,10 @@ CHECKS = {
    technique="TLC model checking of spec/XRef.tla (all well-formed update histories, reader Mech => NewestWins) + replay of every enumerated history as a real multi-revision file through the library",
    text="TLC exhaustively enumerates every well-formed update history within the bound (objects 1..3, <=2 sections quick / <=3-4 thorough, both xref formats, direct/compressed/free/restated entries), checks that the reader model (one action per loop body of read_xref_table_and_trailer/add_entries_from) satisfies NewestWins, refutes each deviation switch, and every history is written by an independent PDF writer and resolved through Storage and File (strict and tolerant, several layouts); the oracle is the spec's NewestMention.",
    note="Bounded histories; trusted: TLC, the harness' own PDF writer (mkpdf), the projection of resolve results. Hybrid (/XRefStm) files are out of scope."),
+ "C09": dict(level="model_checking", design="5/C09", engine="A:store",
+   technique="TLC model checking of spec/Store.tla (call histories over create/update/promise/fulfil/get/save incl. failing save; ReadYourWrites, SameRef, ReloadExact, Retry, Prefix) + transition-cover and random-walk replay on real Storage/File",
+   text="TLC checks the intended design of the store against the five C09 invariants on the full reachable graph (<=4 calls quick, <=6 thorough) and refutes seven deviation switches; a transition cover (one shortest path per distinct (state,last call)) plus seeded random walks are replayed on generated base files (raw/compressed/stream objects, junk prefix, two xref layouts, cached File API and uncached Storage API) with every reference resolved and typed-loaded after every call and the saved bytes reloaded after every save; oracle = ghost Expected of the spec.",
+   note="Bounded histories and value domain; trusted: TLC, mkpdf base files, value abstraction (dictionaries by key set). One recorded finding (dictionary merge on repeated update) is predicted by the as-built model and suppressed only where the observation equals that prediction."),
 }
 
 def main():
